@@ -301,6 +301,74 @@ func main() {
 		}
 		cases = append(cases, caseT{Kind: "lib", Src: src, Input: inTag()})
 	}
+	// every prefix of the corpus queries and of generated programs (a lexer/parser that looks
+	// ahead must cope with the text ending at ANY byte), and lexical fragments at the very end
+	{
+		var srcs []string
+		for i, c := range corpus {
+			if ctx.Thorough || i%4 == int(ctx.Seed%4) {
+				srcs = append(srcs, c.Query)
+			}
+		}
+		for i := 0; i < ctx.N(60, 1500); i++ {
+			srcs = append(srcs, jqgen.New(r, r.Range(1, 3)).Query())
+		}
+		seenP := map[string]bool{}
+		for _, q := range srcs {
+			for cut := 0; cut < len(q); cut++ {
+				if p := q[:cut]; !seenP[p] && len(p) < 200 {
+					seenP[p] = true
+					cases = append(cases, caseT{Kind: "lib", Src: p, Input: "n"})
+					dist["lib:prefix"]++
+				}
+			}
+		}
+		frags := []string{"1e", "1E", "2e-", "2E+", ".5e", ".5e+", "1.", "1.e", "0x", "1e1e", "\"", "\"\\", "\"\\u", "\"\\u12", "\"\\(", "\"\\(1", "\"a\\(\"", "@", "@x", "$", "$_", "$__", "#", "#\\", "# \\\r", ".", "..", ".[", ".a.", ".\"", "?//", "//", "|=", "as", "as $", "def", "def f", "def f:", "reduce", "label $", "import \"", "-", "1 as [", "{", "{a", "{a:", "{(", "[", "(", "if", "if 1 then", "try", "1?", "@base64 \"", "\x00", "\xff", "\xe3\x80", "é", "1 e", "e", "nan1e"}
+		heads := []string{"", "1 | ", "[1, ", "{a: ", "\"\\(", "def f: ", ". as $x | ", "1 + ", ".a", "1", "\n", "# c\n"}
+		for _, h := range heads {
+			for _, f := range frags {
+				for _, t := range []string{"", " ", "\n"} {
+					cases = append(cases, caseT{Kind: "lib", Src: h + f + t, Input: "n"})
+					dist["lib:fragment-at-end"]++
+				}
+			}
+		}
+	}
+	// indices and sizes at the limits of the machine integer, in every construct that takes one
+	{
+		xs := []string{"infinite", "-infinite", "nan", "1e300", "-1e300", "1e1000", "9223372036854775807", "9223372036854775806", "-9223372036854775808", "-9223372036854775807", "9223372036854775808", "1e19", "18446744073709551616", "4294967296", "2147483648", "2147483647", "-2147483649", "536870913", "100000000000000000000", "-1", "-2", "0.5", "1.5e18"}
+		forms := []string{".[%X] = 1", ".[%X] |= 1", ".a[%X] += 1", ".[%X] //= 1", "setpath([%X]; 1)", "setpath([\"a\", %X]; 1)", "getpath([%X])", "delpaths([[%X]])", "del(.[%X])", ".[%X]", ".[%X:]", ".[:%X]", ".[%X:%Y]", ".[%X:%Y] = [1]", "del(.[%X:%Y])", ".[%X:%Y] |= map(.)", "has(%X)", "[limit(%X; 1, 2)]", "[range(%X; %Y)] | length", "[range(0; 3; %X)] | length",
+			"\"ab\" * %X | length", "[1, 2] | .[%X]", "\"abc\" | .[%X:%Y]", "[splits(\"a\")] | .[%X]", "nth(%X; 1, 2)", "[.[]?] | .[%X] = 0", "to_entries | .[%X]", "flatten(%X)", "ltrimstr(%X)", "tojson | .[%X:%Y]", "[paths] | .[%X]", "implode? // ([%X] | implode)", "[%X] | implode", "%X | tostring | tonumber", "pow(2; %X)", "ldexp(1; %X)", "[%X, %Y] | sort", "{} | .[\"a\"][%X] = 1", "getpath([\"a\", %X, \"b\"])", "path(.[%X])", "try (.[%X] = 1) catch .", "[.[%X]?, .[%Y]?]", "%X as $i | .[$i] = 1", "%X as $i | [1, 2, 3] | .[$i:] = []", "input_line_number + %X", "[1, 2, 3] | del(.[%X, %Y])", "@base64d? // (\"x\" * %X)", "splits(\"a\"; null) | .[%X:]", "%X % %Y", "%X / %Y", "[%X] | .[0] %= 3?", "gmtime? // (%X | gmtime)", "%X | todate?", "%X | floor | tostring", "[range(%X)] | length"}
+		n := 0
+		for _, f := range forms {
+			for _, x := range xs {
+				if strings.Contains(f, "range(%X)") && (x == "infinite" || strings.HasPrefix(x, "1e") || len(x) > 6 && x[0] != '-') {
+					continue // an unbounded collection is a resource question, not a crash
+				}
+				if strings.Contains(f, "* %X") && x != "-1" && x != "0.5" && x != "nan" && x != "-infinite" && x[0] != '-' {
+					continue
+				}
+				ys := []string{common.Pick(r, xs)}
+				if ctx.Thorough {
+					ys = xs
+				}
+				if !strings.Contains(f, "%Y") {
+					ys = ys[:1]
+				}
+				for _, y := range ys {
+					if strings.Contains(f, "range(%X; %Y)") {
+						continue
+					}
+					src := strings.ReplaceAll(strings.ReplaceAll(f, "%X", x), "%Y", y)
+					for _, in := range []string{"n", "[ i1 i2 i3 ]", "{ s61 [ i1 ] }"} {
+						cases = append(cases, caseT{Kind: "lib", Src: src, Input: in})
+						n++
+					}
+				}
+			}
+		}
+		dist["lib:index-limits"] = n
+	}
 	// every native function of the table (internal `_names` included: they are reachable from any
 	// query text) on argument tuples from an adversarial literal set — arrays of unequal lengths,
 	// boundary numbers, odd strings — exhaustively for small arities
